@@ -78,7 +78,7 @@ CLAIMED = {
         "the exact or the 12/12/true decimal rendering, a space iff has_numerator(), and the unit displayed with "
         "!value.is_one(); that an Err result is rendered by term::emit and the loop continues; that the only early exits "
         "are I/O failures; and that descriptions are printed in recorded order. Not decided: the text produced by the "
-        "Display impls (C08).",
+        "Display impls (Rational's: C08).",
    note=TRUST_MIR + "Display impls render their values; structopt fills Opts from the command line.",
    design="4/C19"),
  "C01": dict(
@@ -144,6 +144,24 @@ CLAIMED = {
         "well-formed literal shapes is lexed as one NUMBER token.",
    note=TRUST_MIR + "exact BigRational arithmetic (C01). Quick tier uses one representative per interval of byte values no comparison separates plus all digits; thorough all 256.",
    design="4/C07"),
+ "C08": dict(
+   technique="inductive transducer check of the decimal formatter on its MIR: path summary of the long-division generator step, "
+             "summary of the value split and form dispatch, per-form prologue / arbitrary loop turn / epilogue with an output-atom log, "
+             "bisimulation of the small-fraction loop with a reference machine, semantic (grid) comparison of summary terms",
+   text="Decides the structural and per-step facts faithfulness rests on, for all values, limits and thresholds at once: the digit "
+        "generator performs exactly the long-division step (digit floor(10R/D), remainder 10R - D floor(10R/D), end iff R = 0); the "
+        "value is split into sign, whole = floor(|n|/|d|), remainder and |d| and each form receives them in the positions in which it "
+        "uses them; the form is chosen by digits(whole) >= exponent_limit (digits() checked inductively), then whole != 0 or "
+        "remainder = 0; in each of the three forms, from an arbitrary loop state, one turn either leaves without consuming or pulls "
+        "exactly one digit and prints exactly it (leading zeros of a small fraction are counted into the exponent instead), within the "
+        "budget `limit`; the continuation mark is printed exactly when the remainder left by the last printed digit is non-zero (in the "
+        "scientific form: or a cut-off digit of the whole part is not '0'); sign, point, zero padding and exponent are those of the "
+        "reference machine. That these facts compose to 'the text is the truncation of the value' is an induction over the loop turns "
+        "with the invariant value = printed + remainder/den * 10^-k (argued in DESIGN.md, not machine-checked).",
+   note=TRUST_MIR + "exact BigInt arithmetic; std's Take asks its inner iterator only while its budget is positive; Peekable<Chars> over "
+        "BigInt::to_string yields the decimal digits in order; integer Display prints the decimal numeral; the Formatter accepts every write. "
+        "limit = 0 and exponent_limit = 0 are outside the property's quantifier and not decided.",
+   design="4/C08"),
  "C09": dict(
    technique="affine-domain abstract interpretation of the conversion closures, path summary of apply_conversion over a symbolic power, provenance of the sole/power/direction arguments in factor, mul and reconstruct",
    text="Decides that the Fahrenheit and Celsius maps are exactly the defining affine maps and mutually inverse for every "
@@ -169,10 +187,7 @@ CLAIMED = {
    design="4/C13"),
 }
 
-NA = {
- "C08": "printed-digit faithfulness is arithmetic on remainders and digit budgets across three formatter paths; no table, "
-        "ordering, ownership or finite-partition structure decides it statically (DESIGN.md section 6)",
-}
+NA = {}
 
 checks = []
 for p in props:
